@@ -932,6 +932,15 @@ func (e *Engine) localValue(fr *Frame, s *State, lr LocalRef, head *ssa.BasicBlo
 			e.unsupported("%s: loop %d has not been entered", lr.Name, want)
 		}
 		return e.load(s, fr.vals[a], types.Typ[types.Int])
+	case "loopseen":
+		for _, in := range head.Instrs {
+			if n, ok := in.(*ssa.Next); ok && !n.IsString {
+				if it, ok := fr.vals[n.Iter].(*iterV); ok {
+					return e.heap(s, it.id, it.sort)
+				}
+			}
+		}
+		e.unsupported("loopseen: loop is not a range-over-map loop")
 	case "loopx":
 		x := e.rangeOperand(head)
 		if x == nil {
